@@ -20,7 +20,7 @@ pub static PROP: Prop = Prop {
     rule: "enumerated: all 1,000,000 ECI numbers written by encode_eci and compared with the 1/2/3-codeword forms of ISO/IEC 16022 and read back through the decoder (hook decode_parts) as the same number; all designator sequences [241,a], [241,a,b], [241,a,b,c] (2^24 three-byte sequences) against the standard's acceptance rule; 256 byte values x ECI {none,3,11,13,26,27} carried by ASCII/upper shift and by Base256 against tables generated from the charset definitions; generated: multi-segment payloads with ECI switches, valid / mutated / random UTF-8 and 7-bit payloads; non-trivial = numbers within 2 of a form boundary (126/127, 16382/16383, 999999), bytes >= 0xA0 under ECI 11/13, payloads with >= 2 ECI segments or invalid sequences; distinct by case",
     assumptions: &["designators that decode to a number above 999999 are only required not to panic", "ISO-8859-9 = ISO-8859-1 with 6 replacements, ISO-8859-11 per 8859-11.TXT (0xDB-0xDE, 0xFC-0xFF undefined)", "read-back uses hook H2 verif::decode_parts; decode_data must report ECICode for the same stream"],
     extra: super::no_extra,
-    fuzz_runs: 50000,
+    fuzz_runs: 200000,
 };
 
 // ---------------------------------------------------------------------------------------------
